@@ -45,4 +45,6 @@ EXTRAS = [
     lambda rep, fb, tier: __import__("vf.rules.lints3", fromlist=["x"]).rule_strides_inner_first(rep, fb),
     lambda rep, fb, tier: __import__("vf.rules.lints3", fromlist=["x"]).rule_range_same_base(rep, fb),
     lambda rep, fb, tier: __import__("vf.rules.lints3", fromlist=["x"]).rule_identities_offset_units(rep, fb),
+    lambda rep, fb, tier: __import__("vf.rules.pyrules5", fromlist=["x"]).rule_py_offsets_of_pieces(rep),
+    lambda rep, fb, tier: __import__("vf.rules.lints3", fromlist=["x"]).rule_regularized_copy_used(rep, fb),
 ]
